@@ -197,6 +197,11 @@ func (r *Room) Close() []Session {
 	result := make([]Session, 0, len(r.sessions))
 	for _, s := range r.sessions {
 		result = append(result, s)
+		if clientSession, ok := s.(*ClientSession); ok {
+			// The sessions are dropped here, "RemoveSession" will no longer find
+			// them: they must not stay listeners of the data of a closed room.
+			r.transientData.RemoveListener(clientSession)
+		}
 	}
 	r.sessions = nil
 	r.statsRoomSessionsCurrent.Delete(prometheus.Labels{"clienttype": HelloClientTypeClient})
